@@ -232,6 +232,34 @@ func c07BuildPool(verifSeed int64) []*sbom.Document {
 		}
 		pool = append(pool, d)
 	}
+	// a family of documents over ONE small identifier namespace: what one document leaves behind in a
+	// driver (or a pool) meets the same identifiers in the next; absent nodes make edges dangle
+	names := []string{"SPDXRef-fam-a", "SPDXRef-fam-b", "SPDXRef-fam-c", "SPDXRef-fam-d", "SPDXRef-fam-e"}
+	for i := 0; i < 12; i++ {
+		d := base(fmt.Sprintf("m%d", i))
+		g := gen.New(r.Int63(), gen.Profile{Serialisable: true, Tag: fmt.Sprintf("m%d", i)})
+		d.NodeList = &sbom.NodeList{}
+		present := map[string]bool{}
+		for j, nm := range names {
+			if j == 0 || r.Intn(3) != 0 {
+				d.NodeList.Nodes = append(d.NodeList.Nodes, g.Node(nm))
+				present[nm] = true
+			}
+		}
+		d.NodeList.RootElements = []string{names[0]}
+		for k := 1 + r.Intn(5); k > 0; k-- {
+			from := names[r.Intn(len(names))]
+			if !present[from] && r.Intn(3) != 0 {
+				from = names[0]
+			}
+			e := &sbom.Edge{Type: []sbom.Edge_Type{sbom.Edge_contains, sbom.Edge_contains, sbom.Edge_dependsOn}[r.Intn(3)], From: from}
+			for j := 1 + r.Intn(2); j > 0; j-- {
+				e.To = append(e.To, names[r.Intn(len(names))]) // may name an absent node
+			}
+			d.NodeList.Edges = append(d.NodeList.Edges, e)
+		}
+		pool = append(pool, d)
+	}
 	for i := 0; i < 8; i++ { // schema-driven hostile documents, forced to one existing root so that serializers get past their guards
 		g := gen.New(r.Int63(), gen.Profile{MaxNodes: 6, Tag: fmt.Sprintf("x%d", i), Hostile: true})
 		d := g.Document(fmt.Sprintf("urn:uuid:11111111-0000-4000-8000-%012d", i))
